@@ -2,7 +2,10 @@ module github.com/dolthub/go-mysql-server/verifharness
 
 go 1.26.2
 
-require github.com/dolthub/go-mysql-server v0.0.0
+require (
+	github.com/dolthub/go-mysql-server v0.0.0
+	github.com/dolthub/vitess v0.0.0-20260819175407-19559ab533b7
+)
 
 require (
 	github.com/cespare/xxhash/v2 v2.3.0 // indirect
@@ -10,7 +13,6 @@ require (
 	github.com/dolthub/flatbuffers/v23 v23.3.3-dh.2 // indirect
 	github.com/dolthub/go-icu-regex v0.0.0-20260610153742-72563bc7ca83 // indirect
 	github.com/dolthub/jsonpath v0.0.2-0.20260807003725-336cd89c1c76 // indirect
-	github.com/dolthub/vitess v0.0.0-20260819175407-19559ab533b7 // indirect
 	github.com/google/uuid v1.6.0 // indirect
 	github.com/hashicorp/golang-lru v0.5.4 // indirect
 	github.com/lestrrat-go/strftime v1.2.0 // indirect
